@@ -17,5 +17,9 @@ def run(ctx):
     ctx.assumptions += ["work conservation is judged for jobs of whole-GPU / cpu-only pods without placement constraints; sharing pods and the "
                         "reclaim/preempt progress is judged on generated members of the unobstructed single-claimant class (profile unobs), the "
                         "antecedent being re-derived by the spec from the scenario"]
-    n = 300 if ctx.quick else 8000
+    n = 1200 if ctx.quick else 12000
     st_cluster.run_stage(ctx, PREFIXES, [("mixed", n // 2), ("fifo", n // 8), ("slots", n // 8), ("unobs", n // 4)], nontrivial_fn=nontrivial)
+
+
+def replay(ctx, obj):
+    st_cluster.replay_stage(ctx, obj, PREFIXES)
